@@ -603,9 +603,9 @@ def run_shard(ctx):
             return t
         return make
 
-    ctx.run_given(mk(tcases), ctx.budget(3200, 60000), salt=1)
-    ctx.run_given(mk(rcases), ctx.budget(5000, 60000), salt=2)
-    ctx.run_given(mk(pcases), ctx.budget(4000, 50000), salt=3)
+    ctx.run_given(mk(tcases), ctx.budget(3200, 30000), salt=1)
+    ctx.run_given(mk(rcases), ctx.budget(5000, 30000), salt=2)
+    ctx.run_given(mk(pcases), ctx.budget(4000, 30000), salt=3)
 
     srcs = [{"kind": "template", "name": t} for t in corpus.TEMPLATES]
     for p in corpus.sample_files():
@@ -618,4 +618,4 @@ def run_shard(ctx):
                                     "part": st.sampled_from(["content", "styles", "meta", "meta", "settings", "manifest"]),
                                     "pwarm": st.lists(st.sampled_from(["root", "body", "getters", "edit", "serialize"]), max_size=3),
                                     "pedits": st.lists(st.tuples(side, st.integers(0, 7)), min_size=1, max_size=5), "save_both": st.booleans()})
-    ctx.run_given(mk(dcases), ctx.budget(1600, 20000), salt=4)
+    ctx.run_given(mk(dcases), ctx.budget(1600, 10000), salt=4)
